@@ -25,8 +25,8 @@ type cacheEnt struct {
 	// fault plan: consumed in order per call
 	GetPlan []int // per Get call: 0 normal, 1 error, 2 forced miss
 	SetPlan []int // per Set call: 0 normal, 1 error, 2 lost (ack, not stored)
-	gets    int
-	sets    int
+	gets    map[int]int // per caller: fault plans are consumed per caller so that
+	sets    map[int]int // the outcome does not depend on which caller arrives first
 	Ops     []CacheOp
 }
 
@@ -102,11 +102,15 @@ func (c *SimCache) Get(ctx context.Context, url string) (*corecrl.Bundle, error)
 	e.mu.Lock()
 	defer e.mu.Unlock()
 	plan := 0
-	if e.gets < len(e.GetPlan) {
-		plan = e.GetPlan[e.gets]
+	caller := callerOf(ctx)
+	if e.gets == nil {
+		e.gets = map[int]int{}
 	}
-	e.gets++
-	op := CacheOp{T: time.Now(), Op: "get", Caller: callerOf(ctx)}
+	if e.gets[caller] < len(e.GetPlan) {
+		plan = e.GetPlan[e.gets[caller]]
+	}
+	e.gets[caller]++
+	op := CacheOp{T: time.Now(), Op: "get", Caller: caller}
 	switch {
 	case plan == 1:
 		op.Outcome = "error"
@@ -128,11 +132,15 @@ func (c *SimCache) Set(ctx context.Context, url string, b *corecrl.Bundle) error
 	e.mu.Lock()
 	defer e.mu.Unlock()
 	plan := 0
-	if e.sets < len(e.SetPlan) {
-		plan = e.SetPlan[e.sets]
+	caller := callerOf(ctx)
+	if e.sets == nil {
+		e.sets = map[int]int{}
 	}
-	e.sets++
-	op := CacheOp{T: time.Now(), Op: "set", Caller: callerOf(ctx)}
+	if e.sets[caller] < len(e.SetPlan) {
+		plan = e.SetPlan[e.sets[caller]]
+	}
+	e.sets[caller]++
+	op := CacheOp{T: time.Now(), Op: "set", Caller: caller}
 	op.Base, op.Delta = bundleHashes(b)
 	switch plan {
 	case 1:
